@@ -54,6 +54,14 @@ CHECKS = {
                 "reader and writer interleave at operation granularity (a reader's single atomic load of the flushed offset is not split); SC atomics.",
         "technique": "Kani/CBMC bounded model checking of the real seglog Reader/Writer over a symbolic file model, differential against a reference reader",
     },
+    "C02": {
+        "text": "KERNEL claim (the acceptance decision; 'a rejected append changes nothing' and the latest-version queries are outside): bounded model checking of the verbatim WriterSet::validate_event_versions with the real "
+                "sierradb-protocol types against a 25-line reference model written from the statement: for every state of 2 streams (absent / present with any version, matching or foreign partition key), 0..2 pending "
+                "index entries overriding the index, and every transaction of 3 events (any stream, Any/Exists/Empty/Exact(v), v over full u64): accepted <=> every expectation holds against the state including "
+                "earlier events of the same transaction and the partition key matches; accepted appends get the model's versions. The expected-partition-sequence half is decided under C25.",
+        "note": TB + "stream index lookups abstracted to a symbolic answer per stream; HashMap -> direct-indexed shim; mock WriterSet/WriteError; the reference model in harness/c02/harness.rs.",
+        "technique": "Kani/CBMC bounded model checking of the verbatim validator, differential against a reference model",
+    },
     "C07": {
         "text": "Claimed for the gating logic of the two local scan handlers (event lookup was read off as correct and is not encoded; version/sequence queries are outside): bounded model checking of verbatim "
                 "statement ranges of ClusterActor::handle_partition_read_locally and handle_stream_read_locally over a mock iterator that stores ALL events of a small partition log, confirmed or not: for every "
@@ -147,8 +155,6 @@ NOT_APPLICABLE = {
     "C20": "liveness under thread schedules and tokio wake-up semantics: not a bounded safety query",
 }
 NOT_APPLICABLE.update({
-    "C02": "not reached: WriterSet::validate_event_versions reads the stream indexes (open index, closed MPHF/bloom indexes, pending entries) of a live WriterSet; a slice needs ~15 mocked types and was not built in the time available - "
-           "the expected-version algebra it relies on is decided under C25, nothing else of C02 is claimed",
     "C03": "not reached: the scan arithmetic lives in SegmentIter/BucketIter (async, block cache, MPHF lookups); no harness was built - nothing claimed",
     "C04": "not reached: commit matching (SegmentBlock::read_committed_events) decodes bincode RawEvent/RawCommit records through the sierradb crate; no overlay of that crate was built - nothing claimed",
     "C05": "attempted, no verdict: Writer::open's recovery scan is a data-dependent loop (every CRC outcome forks, the resume offset then indexes every buffer); CBMC did not finish one crash cut in 20 min even with the cut, "
